@@ -233,10 +233,26 @@ PROPS = {
         "technique": "Lean 4 refinement-style theorem (restart equivalence under a rebuilt-memory relation) + kernel-checked regenerated facts + restart differential run on database copies",
         "explanation": "Restart equivalence proved for the abstract node; every write to keeper process memory enumerated from the source and matched against the rebuilt list; block histories including a governance change of the active EVM extensions are continued on restarted copies at random boundaries and right after the change.",
     },
+    "C15": {
+        "id": "C15",
+        "lean_modules": ["HaqqModel.Props.C15"],
+        "level": "proof",
+        "no_model": True,
+        "trusted_base": COMMON_TRUST + [
+            "modelled, not verified: the SDK bank primitives (send / mint / burn as pointwise balance and supply updates), the distribution FeePool bookkeeping of the redirected burn; NOT modelled: the staking, distribution and governance invariants' internals (validator tokens, shares, unbonding entries, outstanding rewards, deposits) — these are evaluated on the real application by the correspondence run only",
+        ],
+        "assumptions": [
+            "Haqq's keepers move coins only through the bank-keeper methods listed by the regenerated fact bankMethodsUsedByHaqq (a type-based sweep with go/packages); a raw store write to the bank module from elsewhere would not be seen by the fact",
+        ],
+        "level_text": "Partial. Machine-checked (Lean 4): every history of bank primitives — mint, burn, Haqq's redirected burn, every kind of send, and the EVM keeper's SetBalance — preserves sum of balances = supply, and the redirected burn preserves the distribution module's can-pay inequality; kernel-checked over regenerated facts: the bank-keeper methods Haqq's own code calls are reads, those primitives, or metadata. Evaluated, not proved: after every block of generated histories every invariant registered with the crisis keeper is run on the committed state of the real application.",
+        "level_note": "Partial: Haqq's coin movements are proved to keep the bank invariant; the SDK's staking/distribution/gov invariants are checked at run time on generated histories, not modelled. Trusted: Lean kernel; extractor; harness.",
+        "technique": "Lean 4 invariant proof over bank primitives + kernel-checked regenerated fact (typed sweep of bank-keeper calls) + all crisis invariants evaluated after every block of generated histories",
+        "explanation": "Supply invariant proved for all histories of primitives; the primitive set tied to the source by a typed sweep; histories with staking, precompile and puppet-contract transactions, DAO funding, governance and the per-block coinomics mint evaluated against every registered invariant after each block.",
+    },
 }
 
 # properties not (yet) claimed, each with a reason; entries disappear as checks are built
 NOT_APPLICABLE = {pid: "check not built yet in this session (planned: see DESIGN.md §5)" for pid in
-                  ["C03", "C04", "C10", "C15", "C16", "C19"]}
+                  ["C03", "C04", "C10", "C16", "C19"]}
 
 HOOK_COMMITS = []
